@@ -62,6 +62,29 @@ Proof.
 Qed.
 Print Assumptions C27_statement.
 
+(* devices that are not mounted disk drives.  OPEN-like statements on SCRN: KYBD: LPTn: COMn: CAS1:, on the DOS
+   device files CON AUX PRN NUL and on unknown devices never enter DiskDevice: no host path is touched. *)
+Theorem C27_nondisk_no_host_access : forall normpath ntsplit (h : host) s name mode program e,
+  open_device (st_cur s) name = Err e ->
+  fst (exec normpath ntsplit h s (SOpen name mode program)) = [].
+Proof. exact exec_open_nondisk. Qed.
+Print Assumptions C27_nondisk_no_host_access.
+
+(* ... nor does an OPEN-like statement addressed to a drive that is not mounted (E:, the internal drive @:) *)
+Theorem C27_open_unmounted_no_host_access : forall normpath ntsplit (h : host) s name mode program l spec,
+  open_device (st_cur s) name = Ok (l, spec) -> ds_mounted (get_drive s l) = false ->
+  fst (exec normpath ntsplit h s (SOpen name mode program)) = [].
+Proof. exact exec_open_unmounted. Qed.
+Print Assumptions C27_open_unmounted_no_host_access.
+
+(* with no drive mounted (only the internal drive @: and the devices exist) NO statement reaches the host:
+   FILES "@:" lists . and .. and reports 0 bytes free without a host call *)
+Theorem C27_unmounted_no_host_access : forall normpath ntsplit (h : host) s st,
+  (forall l, ds_mounted (get_drive s l) = false) ->
+  fst (exec normpath ntsplit h s st) = [].
+Proof. exact exec_unmounted. Qed.
+Print Assumptions C27_unmounted_no_host_access.
+
 (* D9: the defect that fixes/D9.patch repairs.  Without the test added by the patch, the name ".. " in a
    directory (where ".." always exists as a directory) resolves to "..": not a safe component. *)
 Definition D9_host : host :=
